@@ -273,6 +273,52 @@ def make_stats_harness(n_f):
     return harness
 
 
+def make_result_stat_harness(test: str, admittance: bool):
+    """the pseudo chi-squared *reported* by the exploratory KK driver for a given test does not change when data and fitted circuit
+    are expressed in another impedance unit (the kernel is a stub returning an R-K circuit; for the rescaled data it returns the
+    same circuit in the new unit)"""
+    def harness(eng):
+        import pyimpspec.analysis.kramers_kronig.exploratory as ex
+        from pyimpspec import parse_cdc
+        from pyimpspec.data.data_set import DataSet
+        eng.div_zero_policy = "assume"
+        n = 4
+        fs = [eng.real("f%d" % i, npy=False) for i in range(n)]
+        zs = [eng.complex("Z%d" % i, npy=False) for i in range(n)]
+        for i in range(n):
+            eng.assume(fs[i] > 0)
+            if i:
+                eng.assume(fs[i - 1] > fs[i])
+            eng.assume(zs[i] != 0)
+        c = eng.real("c", npy=False)
+        eng.assume(c > 0)
+        R, K, tau = eng.real("fit.R"), eng.real("fit.K"), eng.real("fit.tau")
+        out = []
+        for scale in (1, c):
+            def kernel(args, scale=scale):
+                circ = parse_cdc("RK")
+                r, k = circ.get_elements()
+                r.set_lower_limits(R=float("-inf"))
+                r.set_values(R=R * scale)
+                k.set_values(R=K * scale, tau=tau)
+                return (args[4], circ)
+            saved = (ex._leastsq_test, ex._inversion_test)
+            ex._leastsq_test = ex._inversion_test = kernel
+            try:
+                d = DataSet(list(fs), [z * scale for z in zs])
+                out.append(ex.evaluate_log_F_ext(d, test=test, num_RCs=[2], admittance=admittance, num_F_ext_evaluations=0, num_procs=1))
+            finally:
+                ex._leastsq_test, ex._inversion_test = saved
+        _nonvacuous(eng)
+        a, b = out[0][0][1][0], out[1][0][1][0]
+        eng.check(same(a.pseudo_chisqr, b.pseudo_chisqr), "the reported pseudo chi-squared does not depend on the impedance unit",
+                  lambda: "%r vs %r" % (a.pseudo_chisqr, b.pseudo_chisqr))
+        ra, rb = list(a.residuals.flat), list(b.residuals.flat)
+        for x, y in zip(ra, rb):
+            eng.check(same(x, y), "the reported relative residuals do not depend on the impedance unit")
+    return harness
+
+
 def obligations(tier: str):
     from sx.runner import Obligation
     import pyimpspec.analysis.kramers_kronig.least_squares as ls
@@ -304,6 +350,15 @@ def obligations(tier: str):
     obs.append(Obligation("taus", make_taus_harness(n_f + 1, 3), bounds="_generate_time_constants on %d angular frequencies in either order, log F_ext in [-1, 1], num_RC = 3" % (n_f + 1),
                           functions=[ut._generate_time_constants], expect_reach=["non-vacuous"], mode="fresh",
                           stubs=["log10 and 10**x are uninterpreted: equal arguments give equal time constants; a difference is confirmed numerically by the replay"]))
+    import pyimpspec.analysis.kramers_kronig.exploratory as ex
+    for test in (("complex", "real-inv") if tier == "quick" else ("complex", "real", "imaginary", "complex-inv", "real-inv", "imaginary-inv")):
+        for adm in (False, True):
+            obs.append(Obligation("result.%s.%s" % (test, "Y" if adm else "Z"), make_result_stat_harness(test, adm),
+                                  bounds="evaluate_log_F_ext (test %s, %s, num_RC 2) on 4 symbolic points and on the same points times a symbolic factor; kernel stubbed" % (
+                                      test, "admittance" if adm else "impedance"),
+                                  functions=[ex.evaluate_log_F_ext, ex._perform_tests, ex._use_least_squares_fitting, ex._use_matrix_inversion, au._calculate_pseudo_chisqr,
+                                             au._calculate_residuals], stubs=["_leastsq_test / _inversion_test return an R-K circuit with symbolic parameters, in the unit of the data"],
+                                  expect_reach=["non-vacuous"], mode="fresh", query_timeout_ms=60000))
     obs.append(Obligation("stats", make_stats_harness(n_f), bounds="residuals, Boukamp weight, pseudo chi-squared, noise estimate; %d points" % n_f,
                           functions=[au._calculate_residuals, au._calculate_pseudo_chisqr, au._boukamp_weight, ut._boukamp_weight,
                                      ut._estimate_pct_noise, ut._estimate_pseudo_chisqr], expect_reach=["non-vacuous"], mode="fresh"))
@@ -351,10 +406,14 @@ def _replay_numeric(obligation: str, witness):
     admittance = ".Y" in obligation
     test = next((t for t in ("complex", "real", "imaginary") if t in parts), "complex")
     impl = "-inv" if parts[0] == "mi" else ""
+    scalings = ((1e3, 1.0), (1.0, 1e2), (1e-2, 1e-2), (1e6, 1.0), (1e-6, 1.0), (1.0, 1e6), (1.0, 1e-6))
+    if parts[0] == "result":
+        test, impl = parts[1], ""
+        scalings = ((1e3, 1.0), (1e-2, 1.0), (1e6, 1.0))       # this obligation is about the impedance unit only
     worst = 0.0
     try:
         base = perform_kramers_kronig_test(DataSet(f, Z), test=test + impl, num_RC=8, admittance=admittance, num_F_ext_evaluations=0, add_capacitance=True, add_inductance=True)
-        for c, s in ((1e3, 1.0), (1.0, 1e2), (1e-2, 1e-2), (1e6, 1.0), (1e-6, 1.0), (1.0, 1e6), (1.0, 1e-6)):
+        for c, s in scalings:
             other = perform_kramers_kronig_test(DataSet(f * s, Z * c), test=test + impl, num_RC=8, admittance=admittance, num_F_ext_evaluations=0, add_capacitance=True, add_inductance=True)
             worst = max(worst, abs(other.pseudo_chisqr - base.pseudo_chisqr) / base.pseudo_chisqr)
     except Exception as e:
